@@ -2,6 +2,7 @@ package action
 
 import (
 	"encoding/json"
+	"math/big"
 
 	"github.com/Oneledger/protocol/data/balance"
 	"github.com/Oneledger/protocol/data/keys"
@@ -73,7 +74,10 @@ func (a Amount) ToCoinWithBase(list *balance.CurrencySet) balance.Coin {
 	}
 
 	// parse float string
-	return currency.NewCoinFromInt(a.Value.BigInt().Int64())
+	// scale the full value; truncating it to int64 first would charge or credit
+	// a different amount than the one the handlers record
+	amt := big.NewInt(0).Mul(a.Value.BigInt(), currency.Base())
+	return currency.NewCoinFromAmount(*balance.NewAmountFromBigInt(amt))
 }
 
 type Response struct {
